@@ -11,6 +11,7 @@
 #include <sys/wait.h>
 #include <sys/mman.h>
 #include <sys/stat.h>
+#include <sys/resource.h>
 #include <cstring>
 #include <iostream>
 #include <sstream>
@@ -174,6 +175,17 @@ int main(int argc, char** argv)
     }
     if (!notemplate) sim::build_template();
     signal(SIGPIPE, SIG_IGN);
+    {
+        // Sanitizer frames are several times larger than shipped ones: give recursion that is proportional to the
+        // nesting depth of the input (<= 200 in generated inputs) room, so that only unbounded recursion overflows.
+        struct rlimit rl;
+        if (getrlimit(RLIMIT_STACK, &rl) == 0)
+        {
+            rlim_t want = 512UL * 1024 * 1024;
+            if (rl.rlim_max != RLIM_INFINITY && want > rl.rlim_max) want = rl.rlim_max;
+            if (rl.rlim_cur == RLIM_INFINITY || rl.rlim_cur < want) { rl.rlim_cur = want; setrlimit(RLIMIT_STACK, &rl); }
+        }
+    }
     std::string line;
     while (std::getline(std::cin, line))
     {
